@@ -170,6 +170,7 @@ class C05(Check):
         ``tmp`` may be a relative path (the caches are then addressed relative to the working directory)."""
         import yaw
         from yaw import Catalog, Configuration, HistData
+        from yaw.catalog.trees import BinnedTrees
 
         work = tmp / tag
         cfg = Configuration.create(rmin=[0.02, 0.1], rmax=[0.3, 1.0], unit="deg", edges=[0.1, 0.4, 0.7, 1.0], closed=self.closed)
@@ -187,6 +188,11 @@ class C05(Check):
         res["load"] = "|".join(ser_catalog(c[k]) for k in c)
         c["ref"].build_trees(cfg.binning.edges, closed=self.closed, max_workers=max_workers)
         res["trees"] = ser_trees(c["ref"])
+        # a forced rebuild with the same binning but another leaf size replaces the trees for every worker count
+        c["ref"].build_trees(cfg.binning.edges, closed=self.closed, leafsize=4, force=True, max_workers=max_workers)
+        res["trees_forced_other_leafsize"] = ser_trees(c["ref"]) + "|" + ",".join(
+            str(t.tree.leafsize if t.tree is not None else None) for pid in c["ref"] for t in BinnedTrees(c["ref"][pid]).trees)
+        c["ref"].build_trees(cfg.binning.edges, closed=self.closed, force=True, max_workers=max_workers)  # back to the default leaf size
         res["hist_data"], res["hist_samples"] = ser_hist(HistData.from_catalog(c["ref"], cfg, max_workers=max_workers))
         if entry == "all":
             res["cross"] = ser_corrfuncs(yaw.crosscorrelate(cfg, c["ref"], c["unk"], ref_rand=c["rr"], unk_rand=c["ur"], max_workers=max_workers))
